@@ -28,6 +28,7 @@ def lf(expr):
 
 
 def run(ctx, db, tier):
+    _DB[0] = db
     trailers(ctx, db)
     pairing(ctx, db)
     reuse(ctx, db)
@@ -48,9 +49,14 @@ UNDER_ALLOC = re.compile(r'^(operator new|cocls::\w+::alloc)$')
 UNDER_FREE = re.compile(r'^(operator delete|cocls::\w+::dealloc)$')
 
 
+_DB = [None]
+
+
 def _size_arg(e, free=False, f=None):
     a = e.get('args') or []
     p = (a[1].get('path') if len(a) > 1 else None) if free else (a[0].get('path') if a else None)
+    if _DB[0] is not None:
+        p = const_subst(_DB[0], p)          # static constexpr std::size_t trailer_size = sizeof(owner *);
     if f is not None and p:
         from ..core import local_env, subst_path
         p = subst_path(p, local_env(f))        # const std::size_t total = sz + sizeof(T);
@@ -123,13 +129,31 @@ def trailers(ctx, db):
             forms = []
             for tr in T.traces(f):
                 for e in tr:
-                    p_ = e.get('init') if e.k == 'decl' else (e.get('path') if e.k == 'return' and e.get('depth', 0) > 0 else None)
-                    try:
-                        l_ = lf(p_) if p_ else None
-                    except ValueError:
-                        l_ = None
-                    if l_ is not None and l_.get('SZ') and not UNDER_FREE.match('x'):
-                        forms.append(l_)
+                    # every address computed from the size: initialisers, values returned by helpers, dereferenced expressions, arguments of
+                    # anything but the underlying release (which legitimately gets sz + trailer as a size)
+                    cands = []
+                    if e.k == 'decl':
+                        cands.append(e.get('init'))
+                    elif e.k == 'return' and e.get('depth', 0) > 0:
+                        cands.append(e.get('path'))
+                    elif e.k in ('read', 'use'):
+                        cands.append(e.get('path'))
+                    elif e.k == 'cmp':
+                        cands += [e.get('lhs'), e.get('rhs')]
+                    elif e.k == 'call' and not UNDER_FREE.match(norm(e.get('callee') or '')):
+                        cands += [a.get('path') for a in e.get('args', [])] + [e.get('recv')]
+                    for p_ in cands:
+                        if not p_ or 'param:sz' not in p_:
+                            continue
+                        for q_ in {p_} | set(re.findall(r'\*\((\(.*?param:sz.*?\))\)', p_)):
+                            m_ = re.fullmatch(r'\*\((.*)\)', q_)
+                            q_ = m_.group(1) if m_ else q_
+                            try:
+                                l_ = lf(q_)
+                            except ValueError:
+                                l_ = None
+                            if l_ is not None and l_.get('SZ') and set(l_) - {'SZ', 'SIZEOF', ''}:
+                                forms.append(l_)          # an address: some base plus something of the size
             ok = len(forms) >= 1 and all(l_.get('SZ') == 1 and l_.get('', 0) == 0 and l_.get('SIZEOF', 0) == 0 and l_.get('param:ptr') == 1 for l_ in forms)
             ctx.ob(rid, f, f['key'], ok, '%s::dealloc reads the trailer at ptr + sz' % cls.split('::')[-1], desc='dealloc reads the trailer at another offset than alloc wrote it', inst=f['inst'])
     # promise_extra_storage: size handed back == size requested
@@ -226,7 +250,8 @@ def pairing(ctx, db):
         for tr in [t for t in T.traces(f) if live(t)]:
             heap = any(it.k == 'call' and norm(it.get('callee')) == 'operator new' for it in tr)
             fl = [it for i_, it in enumerate(tr) if it.k == 'write' and _is_trailer_write(f, tr, i_)]
-            if not fl or fl[-1].get('const') != (1 if heap else 0):
+            fv = (fl[-1].get('const') if fl[-1].get('const') is not None else (int(fl[-1]['rhs']) if re.fullmatch(r'\d+', fl[-1].get('rhs') or '') else None)) if fl else None
+            if not fl or fv != (1 if heap else 0):
                 bad = bad or 'the flag byte does not say whether the block came from the heap'
         ctx.ob(rid, f, f['key'], bad is None, 'stack_storage alloc: flag = 1 iff ::operator new' + ('' if not bad else ' -- ' + bad), desc=bad)
     for f in db.need('cocls::stack_storage::dealloc')[:1]:
@@ -235,7 +260,7 @@ def pairing(ctx, db):
             flag = None
             for i_, it in enumerate(tr):
                 nt = null_test(tr, i_) if it.k == 'branch' else None
-                if nt and re.fullmatch(r'\*\((local:\w+(#\d+)?|call\([^()]*\))\)', nt[0] or ''):
+                if nt and re.fullmatch(r'\*\((local:\w+(#\d+)?|call\([^()]*\)|\(.*param:sz.*\))\)', nt[0] or ''):
                     flag = bool(nt[1])
             dels = [it for it in tr if it.k == 'call' and norm(it.get('callee')) == 'operator delete']
             if flag is None or (flag and len(dels) != 1) or (not flag and dels):
@@ -283,20 +308,26 @@ def pairing(ctx, db):
     # promise_extra_storage
     seen = set()
     for f in db.need('cocls::promise_extra_storage::alloc'):
-        nw = [e for e in f.events() if e.k == 'new' and e.get('placement')]
-        fac = [e for e in f.events() if e.k == 'call' and (e.get('recv') or '') == 'this->_factory']
-        ok = len(nw) == 1 and len(fac) == 1 and not has_back_edge(f)
+        trs_ = [t for t in T.traces(f) if live(t)]
+        ok = bool(trs_) and not any(has_back_edge(g_) for g_ in [f] + [h_ for h_ in helper_bodies(db, f) if not re.search(r'::(alloc|dealloc)$', h_['nname'])])
+        for tr in trs_:
+            nw = [e for e in tr if e.k == 'new' and e.get('placement')]
+            fac = [e for e in tr if e.k == 'call' and (e.get('recv') or '') == 'this->_factory']
+            ok = ok and len(nw) == 1 and len(fac) == 1
         if (f['key'], ok) in seen:
             continue
         seen.add((f['key'], ok))
         ctx.ob(rid, f, f['key'], ok, 'extra object constructed exactly once, in place, from the factory', desc='promise_extra_storage::alloc does not construct the extra object exactly once', inst=f['inst'])
     seen = set()
     for f in db.need('cocls::promise_extra_storage::dealloc'):
-        evl = list(f.events())
-        dt = [i for i, e in enumerate(evl) if e.k == 'call' and '::~' in (e.get('callee') or '')]
-        fr = [i for i, e in enumerate(evl) if e.k == 'call' and UNDER_FREE.match(norm(e.get('callee') or '')) and not norm(e['callee']).startswith('cocls::promise_extra_storage')]
-        triv = not dt and any('int' == (p or '') for p in re.findall(r'promise_extra_storage<(\w+)', f.get('class_inst') or ''))
-        ok = (len(dt) == 1 and len(fr) == 1 and dt[0] < fr[0]) or (triv and len(fr) == 1)
+        ok = True
+        trs_ = [t for t in T.traces(f) if live(t)]
+        for evl in trs_ or [[]]:
+            # x->~T(), std::destroy_at(x)
+            dt = [i for i, e in enumerate(evl) if e.k == 'call' and ('::~' in (e.get('callee') or '') or norm(e.get('callee') or '') in ('std::destroy_at', 'std::destroy'))]
+            fr = [i for i, e in enumerate(evl) if e.k == 'call' and UNDER_FREE.match(norm(e.get('callee') or '')) and not norm(e['callee']).startswith('cocls::promise_extra_storage')]
+            triv = not dt and any('int' == (p or '') for p in re.findall(r'promise_extra_storage<(\w+)', f.get('class_inst') or ''))
+            ok = ok and bool(evl) and ((len(dt) == 1 and len(fr) == 1 and dt[0] < fr[0]) or (triv and len(fr) == 1))
         if (f['key'], ok) in seen:
             continue
         seen.add((f['key'], ok))
@@ -307,7 +338,7 @@ def reuse(ctx, db):
     rid = ctx.rule('C19.reuse', 'GUARDED+ATOMIC', 'reusable_storage::alloc allocates exactly on the edge sz > capacity (equal sizes reuse: no allocation after warm-up) and records the allocated size as '
                    'the capacity; reusable_storage_mtsafe::alloc claims the shared block with one atomic exchange(true) on the busy flag and uses the block exactly on the edge where '
                    'the exchange returned false', floor=3)
-    T = Tracer(db, depth=0)
+    T = _ptracer(db)
     for f in db.need('cocls::reusable_storage::alloc')[:1]:
         bad = None
         for tr in [t for t in T.traces(f) if live(t)]:
@@ -343,7 +374,7 @@ def reuse(ctx, db):
         for tr in [t for t in T.traces(f) if live(t)]:
             was_busy = None
             for it in tr:
-                if it.k == 'branch' and ops and it.cond_ev == ops[0].get('id'):
+                if it.k == 'branch' and ops and it.get('depth', 0) == 0 and it.cond_ev == ops[0].get('id'):
                     was_busy = bool(it.val)
             shared = any(it.k == 'call' and norm(it.get('callee')) == 'cocls::reusable_storage::alloc' for it in tr)
             if was_busy is None:
@@ -392,30 +423,40 @@ def routing(ctx, db):
         ctx.ob(rid, f, f['key'], ok, 'operator delete calls Allocator::dealloc(ptr, sz)', desc='promise operator delete does not call dealloc(ptr, sz)', inst=f['inst'])
 
 
+def _is_ceil_div(e):
+    """is the expression ceil(sz / K) for one item size K (a constant local, a sizeof, a literal)?"""
+    e = re.sub(r'\s+', '', e or '')
+    K = r'(local:\w+|global:[\w:<>,*&]+|sizeof\(.*?\)|\d+)'
+    m = re.fullmatch(r'\(\(\(param:sz\+%s\)-1\)/%s\)' % (K, K), e) or re.fullmatch(r'\(\(param:sz\+\(%s-1\)\)/%s\)' % (K, K), e)
+    if m:
+        return m.group(1) == m.group(2)
+    m = re.fullmatch(r'\(\(param:sz\+(\d+)\)/(\d+)\)', e)
+    return bool(m) and int(m.group(1)) == int(m.group(2)) - 1
+
+
 def buffer_storage(ctx, db):
     rid = ctx.rule('C19.buffer-large-enough', 'GUARDED', 'reusable_buffer_storage::alloc: the buffer is grown to the computed item count exactly on the edge where its size is smaller than that '
                    'count (size() < items), the count is a ceiling division of sz by the item size, and the buffer\'s data() is what is handed out', floor=1)
-    T = Tracer(db, depth=0)
+    T = htracer(db)
     for f in db.need('cocls::reusable_buffer_storage::alloc')[:1]:
         bad = None; ng = nk = 0
-        CEIL = r'\(\(\(param:sz\+(local:\w+|sizeof\(.*\))\)-1\)/(local:\w+|sizeof\(.*\))\)'
-        d = next((e for e in f.events() if e.k == 'decl' and re.fullmatch(CEIL, re.sub(r'\s+', '', e.get('init') or ''))), None)
-        ini = re.sub(r'\s+', '', (d or {}).get('init') or '')
-        m0 = re.fullmatch(CEIL, ini) if d is not None else None
-        if d is None or m0.group(1) != m0.group(2):
-            bad = 'the item count is not ceil(sz / itemsize): %s' % ini
-        cnt = 'local:' + d['var'] if d is not None else 'local:items'
         for tr in [t for t in T.traces(f) if live(t)]:
-            small = None
-            for it in tr:
+            small = None; cnt = None
+            for i, it in enumerate(tr):
                 if it.k == 'branch':
-                    m = re.fullmatch(r'\(call\(std::vector::size\) (<|>=|<=|>) %s\)' % re.escape(cnt), it.path or '')
-                    mr = re.fullmatch(r'\(%s (<|>=|<=|>) call\(std::vector::size\)\)' % re.escape(cnt), it.path or '')
+                    m = re.fullmatch(r'\(call\(std::vector::size\) (<|>=|<=|>) (.+)\)', it.path or '')
+                    mr = re.fullmatch(r'\((.+) (<|>=|<=|>) call\(std::vector::size\)\)', it.path or '')
                     if m or mr:
-                        o = m.group(1) if m else {'<': '>', '>': '<', '<=': '>=', '>=': '<='}[mr.group(1)]
+                        o = m.group(1) if m else {'<': '>', '>': '<', '<=': '>=', '>=': '<='}[mr.group(2)]
+                        cnt = m.group(2) if m else mr.group(1)
                         small = (o == '<' and it.val) or (o == '>=' and not it.val)
                         if o in ('<=', '>'):
                             small = 'shape'
+                        # what the count is: through the local it was stored in and the helper that computed it
+                        o_ = origin_in_trace(tr, i, cnt)[0] or cnt
+                        val = inline_returns(tr, i, o_)
+                        if not _is_ceil_div(val) and not _is_ceil_div(re.sub(r'^\((.*)\)$', r'\1', re.sub(r'\s+', '', val or ''))):
+                            bad = bad or 'the item count is not ceil(sz / itemsize): %s' % val
             rs = [c for c in calls(tr) if norm(c.get('callee') or '').endswith('::resize')]
             if small == 'shape' or small is None:
                 bad = bad or 'the growth test is not size() < items'
@@ -427,7 +468,7 @@ def buffer_storage(ctx, db):
                 nk += 1
                 if rs:
                     bad = bad or 'a sufficient buffer is resized'
-            ret = [it for it in tr if it.k == 'return']
+            ret = [it for it in tr if it.k == 'return' and it.get('depth', 0) == 0]
             if not ret or 'data' not in (ret[-1].get('path') or ''):
                 bad = bad or 'the frame is not placed at the buffer\'s data()'
         if not bad and (ng == 0 or nk == 0):
